@@ -346,8 +346,9 @@ def check_run(run, db):
                 for g in db.fns.values():
                     for e, t in flow.call_events(g):
                         if t.get('key') == f.key:
-                            a_need = sym.canon(t['args'][p_need], {0: 'n'})
-                            a_acc = sym.canon(t['args'][p_acc], {0: 'n'})
+                            lv = common.single_assignment_locals(g)      # a hoisted `const auto node_size = node_size_;` is the field
+                            a_need = sym.canon(common.expand_locals(t['args'][p_need], lv), {0: 'n'})
+                            a_acc = sym.canon(common.expand_locals(t['args'][p_acc], lv), {0: 'n'})
                             if a_acc != 'this.node_size_' or a_need != '$n':
                                 probs.append('%s calls the search with (bytes=%s, node size=%s)' % (strip_ns(g.name), a_need, a_acc))
         if probs:
